@@ -29,6 +29,32 @@ fn record(group: &SimGroup) -> Option<(Vec<u8>, Vec<u8>, Vec<u8>)> {
     ))
 }
 
+/// A group that only *looks* like the announced successor / sub-group: created from scratch by `imp`'s ordinary
+/// client with the given group id, the key packages added by an ordinary commit (epoch 1). Its Welcome carries no
+/// resumption PSK, so nothing links it to the old group.
+fn unlinked_group(w: &mut World, imp: usize, gid: &[u8], kps: &[Vec<u8>]) -> VResult<Option<(Vec<Vec<u8>>, Vec<u8>)>> {
+    let prop = w.cfg.property.clone();
+    let now = w.now();
+    let client = w.parties[imp].client.clone();
+    let gid = gid.to_vec();
+    let kps = kps.to_vec();
+    let r: Result<(Vec<Vec<u8>>, Vec<u8>), MlsError> = guarded(&prop, "unlinked look-alike group", move || {
+        let mut ng = client.group_builder()?.with_group_id(gid).with_now_time(now).build()?;
+        let mut b = ng.commit_builder();
+        for k in &kps {
+            b = b.add_member(MlsMessage::from_bytes(k)?)?;
+        }
+        let out = b.commit_time(now).build()?;
+        ng.apply_pending_commit()?;
+        let mut ws = vec![];
+        for m in &out.welcome_messages {
+            ws.push(m.to_bytes()?);
+        }
+        Ok((ws, ng.export_tree().to_bytes()?))
+    })?;
+    Ok(r.ok())
+}
+
 /// After the run: if the group was re-initialised, the old group must refuse further commits and a successor
 /// can be created and joined exactly when its members are the old members.
 pub fn finish_reinit(w: &mut World) -> VResult<()> {
@@ -133,6 +159,39 @@ pub fn finish_reinit(w: &mut World) -> VResult<()> {
         let o = outsider.unwrap();
         if let Some(kp) = w.gen_key_package(o)? {
             kps.push(kp);
+        }
+    }
+    // a look-alike successor (same id, version, suite, extensions; epoch 1; the old members' successor key
+    // packages) built without the old group's resumption secret must not be joinable through the re-init client
+    let same_suite = kps.first().map(|k| k.len() > 8 && u16::from_be_bytes([k[6], k[7]]) == w.cfg.suite).unwrap_or(false);
+    if same_suite && !joiners.is_empty() {
+        let imp = outsider.unwrap_or(creator);
+        let gid = format!("reinit-of-{g}-{:08x}", w.seed as u32).into_bytes();
+        let member_kps: Vec<Vec<u8>> = kps.iter().take(joiners.len()).cloned().collect();
+        if let Some((ws, tree)) = unlinked_group(w, imp, &gid, &member_kps)? {
+            for j in &joiners {
+                let grp = w.parties[*j].mems[g].group.clone().unwrap();
+                for wb in &ws {
+                    let grp2 = grp.clone();
+                    let r = guarded(&prop, "ReinitClient::join(unlinked)", || {
+                        grp2.get_reinit_client(None, None)?.join(
+                            &MlsMessage::from_bytes(wb)?,
+                            Some(mls_rs::group::ExportedTree::from_bytes(&tree)?),
+                            Some(now),
+                        )
+                    })?;
+                    w.stats.check("unlinked-successor-refused");
+                    if r.is_ok() {
+                        return Err(viol(
+                            w,
+                            "reinit-successor",
+                            "joined-unlinked-successor".into(),
+                            format!("P{j} joined, through its re-init client, a group created from scratch by P{imp} with the announced parameters: its Welcome carries no re-init PSK of g{g}"),
+                        ));
+                    }
+                }
+            }
+            w.stats.probe("unlinked-successor-offered");
         }
     }
     let cg = w.parties[creator].mems[g].group.clone().unwrap();
@@ -284,6 +343,45 @@ pub fn do_branch(w: &mut World, creator: usize, mask: u64, variant: u64) -> VRes
         }
     }
     let sub_gid = format!("branch-of-{g}-{}-{:x}", w.step_no, w.seed as u16).into_bytes();
+    // a look-alike sub-group built from scratch (no branch PSK) must not be joinable with join_subgroup
+    if variant % 4 == 0 {
+        let imp = outsider.unwrap_or(creator);
+        let member_kps: Vec<Vec<u8>> = kps.iter().take(subset.len()).cloned().collect();
+        if let Some((ws, tree)) = unlinked_group(w, imp, &sub_gid, &member_kps)? {
+            for j in &subset {
+                let grp = w.parties[*j].mems[g].group.clone().unwrap();
+                for wb in &ws {
+                    let r = guarded(&prop, "join_subgroup(unlinked)", || {
+                        grp.join_subgroup(&MlsMessage::from_bytes(wb)?, Some(mls_rs::group::ExportedTree::from_bytes(&tree)?), Some(now))
+                    })?;
+                    w.stats.check("unlinked-subgroup-refused");
+                    if r.is_ok() {
+                        return Err(viol(
+                            w,
+                            "branch-subgroup",
+                            "joined-unlinked-subgroup".into(),
+                            format!("P{j} joined, with join_subgroup, a group created from scratch by P{imp}: its Welcome carries no branch PSK of g{g}"),
+                        ));
+                    }
+                }
+            }
+            w.stats.probe("unlinked-subgroup-offered");
+        }
+        // the key packages offered to the look-alike are spent: fresh ones for the real branch
+        kps.clear();
+        for j in &subset {
+            match w.gen_key_package(*j)? {
+                Some(k) => kps.push(k),
+                None => return Ok(false),
+            }
+        }
+        if with_outsider {
+            match w.gen_key_package(outsider.unwrap())? {
+                Some(k) => kps.push(k),
+                None => return Ok(false),
+            }
+        }
+    }
     let cg = w.parties[creator].mems[g].group.clone().unwrap();
     let kps2 = kps.clone();
     let res: Result<(SimGroup, Vec<MlsMessage>), MlsError> = guarded(&prop, "branch", || {
